@@ -1,9 +1,10 @@
 From Coq Require Import ZArith List Bool Arith.
-From PV Require Import Base.U64 E3.E3_Run C05.C05_Asym C05.C05_AsymProofs C05.C05_Model C05.C05_Proofs.
+From PV Require Import Base.U64 E3.E3_Run C05.C05_Asym C05.C05_AsymProofs C05.C05_Model C05.C05_Proofs C05.C05_Proofs2.
 Import ListNotations.
 
-(* asymmetric_spinLock under sequential consistency: for every number of stealers, every script
-   length and every schedule, at most one participant is inside *)
+(* ---- asymmetric_spinLock (the run-queue lock) ------------------------------------------------- *)
+(* under sequential consistency: for every number of stealers, every script length and every
+   schedule, at most one participant is inside *)
 Theorem asym_mutex_SC : forall rf rb sched p q,
   let s := sc_run (sc_init rf rb) sched in
   in_cs (pcs s p) = true -> in_cs (pcs s q) = true -> p = q.
@@ -17,3 +18,55 @@ Theorem asym_mutex_TSO_refuted :
                in_cs (t_pcs s 0) = true /\ in_cs (t_pcs s 1) = true /\ (0 <> 1)%nat /\ length ls = 5%nat.
 Proof. exact asym_mutex_TSO_refuted_proof. Qed.
 Print Assumptions asym_mutex_TSO_refuted.
+
+(* ---- life-cycle / placement: every program, every number of vCPUs and threads, every schedule ---- *)
+Theorem placement_unique : forall progs nv n flags t0 s, (nv <= n)%nat -> reachable progs nv n flags t0 s ->
+  forall t v, placed s t v.
+Proof. exact placement_unique_proof. Qed.
+Print Assumptions placement_unique.
+
+Theorem placement_exactly_one : forall progs nv n flags t0 s, (nv <= n)%nat -> reachable progs nv n flags t0 s ->
+  forall t, live (s_th s t) = true ->
+    let v := th_vcpu (s_th s t) in
+    (cnt t (v_runq (s_vc s v)) + cnt t (v_sleepq (s_vc s v)) +
+      (if th_insleep (s_th s t) then 0 else cnt t (v_standby (s_vc s v))) = 1)%nat /\
+    (forall u, u <> v -> cnt t (v_runq (s_vc s u)) = 0%nat /\ cnt t (v_sleepq (s_vc s u)) = 0%nat /\ cnt t (v_standby (s_vc s u)) = 0%nat).
+Proof. exact placement_exactly_one_proof. Qed.
+Print Assumptions placement_exactly_one.
+
+Theorem placed_iff_live : forall progs nv n flags t0 s, (nv <= n)%nat -> reachable progs nv n flags t0 s ->
+  forall t, (exists v, (cnt t (v_runq (s_vc s v)) + cnt t (v_sleepq (s_vc s v)) + cnt t (v_standby (s_vc s v)) >= 1)%nat)
+            <-> live (s_th s t) = true.
+Proof. exact placed_iff_live_proof. Qed.
+Print Assumptions placed_iff_live.
+
+Theorem one_vcpu_at_a_time : forall progs nv n flags t0 s, (nv <= n)%nat -> reachable progs nv n flags t0 s ->
+  forall v v' t, cur s v = Some t -> cur s v' = Some t ->
+    v = v' /\ live (s_th s t) = true /\ th_vcpu (s_th s t) = v.
+Proof. exact one_vcpu_at_a_time_proof. Qed.
+Print Assumptions one_vcpu_at_a_time.
+
+Theorem join_queue_sound : forall progs nv n flags t0 s, (nv <= n)%nat -> reachable progs nv n flags t0 s ->
+  forall j x, (cnt j (th_joiners (s_th s x)) >= 1)%nat ->
+    th_state (s_th s j) = SLEEPING /\ th_waitq (s_th s j) = Some x /\ cnt j (th_joiners (s_th s x)) = 1%nat.
+Proof. exact join_queue_proof. Qed.
+Print Assumptions join_queue_sound.
+
+(* below the queues — which stack a vCPU is physically executing on — exclusiveness FAILS: finding F20 *)
+Theorem stack_exclusive_refuted :
+  exists s, reachable f20_progs 2 3 f20_flags 1000 s /\
+            phys s 0 = Some 2%nat /\ phys s 1 = Some 2%nat /\ s_stuck s = false.
+Proof. exact stack_exclusive_refuted_proof. Qed.
+Print Assumptions stack_exclusive_refuted.
+
+(* runs_once: the entry of a thread starts at most once, finishes at most once and only after it started,
+   `finished = 1` exactly for DONE threads, and at quiescence (no program thread left in any queue) every
+   created program thread has started once and finished once *)
+Theorem runs_once : forall progs nv n flags t0 s, (nv <= n)%nat -> reachable progs nv n flags t0 s ->
+  forall t,
+    (g_started (s_th s t) <= 1)%nat /\ (g_finished (s_th s t) <= g_started (s_th s t))%nat /\
+    (g_finished (s_th s t) = 1%nat <-> th_state (s_th s t) = DONE) /\
+    (quiescent s -> is_user (th_kind (s_th s t)) = true -> th_state (s_th s t) <> NOTCREATED ->
+       g_started (s_th s t) = 1%nat /\ g_finished (s_th s t) = 1%nat).
+Proof. exact runs_once_proof. Qed.
+Print Assumptions runs_once.
